@@ -2,54 +2,54 @@ package tlx
 
 import (
 	"reflect"
-	"sort"
-	"strconv"
 	"strings"
 
 	"github.com/xelaj/mtproto/internal/encoding/tl"
 	_ "github.com/xelaj/mtproto/internal/mtproto/objects" // registers the MTProto service objects
 	"github.com/xelaj/mtproto/telegram"
+	"github.com/xelaj/mtproto/telegram/verifh/tls"
 )
 
-// Registry is a view of the constructor registry of the code under test (through the tag-guarded export).
-type Registry struct {
-	ByID    map[uint32]reflect.Type // registered type: *Struct, or enum type (uint32 kind)
-	IsEnum  map[uint32]bool
-	IDs     []uint32                  // sorted
-	Structs []reflect.Type            // pointer-to-struct types incl. the hand-written wrappers, sorted by name
-	Enums   map[reflect.Type][]uint32 // enum Go type -> member ids (sorted)
-	Extra   []reflect.Type            // hand-written request wrappers (not registered)
-	impls   map[reflect.Type][]reflect.Type
-	minD    map[reflect.Type]int
-}
+// aliases: the schema reading, reference codec, registry view and structural comparison live in package tls
+// (which does not depend on the shipped API layer, so that it can also judge freshly generated packages).
+type (
+	Registry = tls.Registry
+	Schema   = tls.Schema
+	Def      = tls.Def
+	Param    = tls.Param
+	Type     = tls.Type
+	Val      = tls.Val
+	FlagInfo = tls.FlagInfo
+)
 
 var (
-	ObjType    = reflect.TypeOf((*tl.Object)(nil)).Elem()
-	Int128Type = reflect.TypeOf(&tl.Int128{})
-	Int256Type = reflect.TypeOf(&tl.Int256{})
-	MarshalerT = reflect.TypeOf((*tl.Marshaler)(nil)).Elem()
+	Load            = tls.Load
+	Encode          = tls.Encode
+	CanonicalCRC    = tls.CanonicalCRC
+	CompareDef      = tls.CompareDef
+	FieldFlag       = tls.FieldFlag
+	HandWritten     = tls.HandWritten
+	WireUsedMTProto = tls.WireUsedMTProto
+	ErrTooLong      = tls.ErrTooLong
+	ObjType         = tls.ObjType
+	Int128Type      = tls.Int128Type
+	Int256Type      = tls.Int256Type
+	MarshalerT      = tls.MarshalerT
+	RepoDir         = tls.RepoDir
 )
 
+// LoadRegistry reads the registry of the code under test (API layer + MTProto objects) and adds the documented
+// hand-written request wrappers.
 func LoadRegistry() *Registry {
 	objs, enums := tl.VerifRegistry()
-	r := &Registry{ByID: objs, IsEnum: map[uint32]bool{}, Enums: map[reflect.Type][]uint32{}, impls: map[reflect.Type][]reflect.Type{}, minD: map[reflect.Type]int{}}
-	for id := range objs {
-		r.IDs = append(r.IDs, id)
+	r := tls.NewRegistry(objs, enums, nil)
+	r.ImplFilter = IsTelegram
+	r.Wrappers = map[string]reflect.Type{
+		"invokeWithLayer":   reflect.TypeOf(&telegram.InvokeWithLayerParams{}),
+		"initConnection":    reflect.TypeOf(&telegram.InitConnectionParams{}),
+		"invokeWithTakeout": reflect.TypeOf(&telegram.InvokeWithTakeoutParams{}),
 	}
-	sort.Slice(r.IDs, func(i, j int) bool { return r.IDs[i] < r.IDs[j] })
-	for _, id := range r.IDs {
-		t := objs[id]
-		if _, ok := enums[id]; ok {
-			r.IsEnum[id] = true
-			r.Enums[t] = append(r.Enums[t], id)
-			continue
-		}
-		if t.Kind() == reflect.Ptr && t.Elem().Kind() == reflect.Struct {
-			r.Structs = append(r.Structs, t)
-		}
-	}
-	r.Extra = []reflect.Type{reflect.TypeOf(&telegram.InvokeWithLayerParams{}), reflect.TypeOf(&telegram.InitConnectionParams{}), reflect.TypeOf(&telegram.InvokeWithTakeoutParams{})}
-	sort.Slice(r.Structs, func(i, j int) bool { return r.Structs[i].String() < r.Structs[j].String() })
+	r.Extra = []reflect.Type{r.Wrappers["invokeWithLayer"], r.Wrappers["initConnection"], r.Wrappers["invokeWithTakeout"]}
 	return r
 }
 
@@ -58,94 +58,4 @@ func IsTelegram(t reflect.Type) bool {
 		t = t.Elem()
 	}
 	return strings.HasSuffix(t.PkgPath(), "/telegram")
-}
-
-// Implementers lists the registered struct types that implement iface (for tl.Object: every telegram struct).
-func (r *Registry) Implementers(iface reflect.Type) []reflect.Type {
-	if v, ok := r.impls[iface]; ok {
-		return v
-	}
-	var out []reflect.Type
-	for _, t := range r.Structs {
-		if t.Implements(iface) && IsTelegram(t) {
-			out = append(out, t)
-		}
-	}
-	r.impls[iface] = out
-	return out
-}
-
-// FlagInfo describes the tl tag of a field as far as the builder needs it (position of conditional fields).
-type FlagInfo struct {
-	Conditional bool
-	Bit         int
-	InBitflags  bool
-}
-
-func FieldFlag(f reflect.StructField) FlagInfo {
-	tag, ok := f.Tag.Lookup("tl")
-	if !ok {
-		return FlagInfo{}
-	}
-	var fi FlagInfo
-	for i, part := range strings.Split(tag, ",") {
-		if i == 0 && strings.HasPrefix(part, "flag:") {
-			fi.Conditional = true
-			fi.Bit, _ = strconv.Atoi(strings.TrimPrefix(part, "flag:"))
-		}
-		if part == "encoded_in_bitflags" {
-			fi.InBitflags = true
-		}
-	}
-	return fi
-}
-
-// MinDepth is the smallest nesting depth needed to build a canonical value of t (leaf constructors = 0).
-func (r *Registry) MinDepth(t reflect.Type) int {
-	if d, ok := r.minD[t]; ok {
-		return d
-	}
-	r.minD[t] = 1 << 20 // cycle guard: a type in progress is "infinitely deep"
-	d := r.minDepth(t)
-	r.minD[t] = d
-	return d
-}
-
-func (r *Registry) minDepth(t reflect.Type) int {
-	switch t.Kind() {
-	case reflect.Interface:
-		best := 1 << 20
-		for _, c := range r.Implementers(t) {
-			if d := r.MinDepth(c); d < best {
-				best = d
-			}
-		}
-		return best
-	case reflect.Ptr:
-		if t == Int128Type || t == Int256Type {
-			return 0
-		}
-		if t.Elem().Kind() != reflect.Struct {
-			return 0
-		}
-		if t.Implements(MarshalerT) {
-			return 0
-		}
-		worst := 0
-		st := t.Elem()
-		for i := 0; i < st.NumField(); i++ {
-			f := st.Field(i)
-			if FieldFlag(f).Conditional {
-				continue // may be absent
-			}
-			k := f.Type.Kind()
-			if k == reflect.Interface || (k == reflect.Ptr && f.Type != Int128Type && f.Type != Int256Type) {
-				if d := r.MinDepth(f.Type) + 1; d > worst {
-					worst = d
-				}
-			}
-		}
-		return worst
-	}
-	return 0
 }
